@@ -198,6 +198,7 @@ def run(ctx):
     r.check(ok, "lexWord|double-dollar", "", "'$$' is not reduced to one '$'", lw)
 
     E.r_discovered_append(prog, rep)
+    E.r_discovered_demanded(prog, rep)
 
 
 def owner_of(f):
